@@ -11,7 +11,9 @@ RULE = ("tie X on find_markers/load + reference oracle: every arrangement of up 
         "word present; distinct = distinct (splitter, file)")
 
 KINDS = {"plain": b"xy", "B": b"a DDBEGIN b", "E": b"c DDEND d", "BE": b"x DDBEGIN y DDEND",
-         "EB": b"DDEND DDBEGIN", "BB": b"DDBEGIN DDBEGIN", "half": b"DDBE"}
+         "EB": b"DDEND DDBEGIN", "BB": b"DDBEGIN DDBEGIN", "half": b"DDBE",
+         # the two words overlapping on their shared D / glued together / inside longer words
+         "ovEB": b"// DDENDDBEGIN", "glBE": b"DDBEGINDDEND", "ovEE": b"xDDENDDENDy"}
 TERMS = [b"\n", b"\r\n", b"\r", b"\xc2\x85"]
 
 
@@ -41,6 +43,8 @@ def run(ck: Check):
     for n in range(1, K + 1):
         for combo in itertools.product(kinds, repeat=n):
             if n >= 4 and combo.count("plain") + combo.count("half") < n - 3:
+                continue
+            if n >= 3 and sum(combo.count(k) for k in ("ovEB", "glBE", "ovEE")) > 1:
                 continue
             terms = [r.choice(TERMS) for _ in combo]
             for last in (terms[-1], b""):
